@@ -95,6 +95,8 @@ func (w *Worker) posStr(p token.Pos) string {
 	f := pos.Filename
 	if i := strings.Index(f, "/repo/"); i >= 0 {
 		f = f[i+6:]
+	} else if d := os.Getenv("GOSX_REPO"); d != "" && strings.HasPrefix(f, d+"/") {
+		f = f[len(d)+1:]
 	}
 	return fmt.Sprintf(" at %s:%d", f, pos.Line)
 }
